@@ -193,9 +193,10 @@ def conformance(jobs):
     says that the design model no longer describes the mechanism."""
     checked, matched, drifts = 0, 0, []
     for job in jobs:
-        want = {i: [int(v) for v in h["expect"].split(",")] if h["expect"] != "-" else []
+        want = {i: [tuple(int(k) for k in v.split(":")) for v in h["expect"].split(",")] if h["expect"] != "-" else []
                 for i, (h, c) in enumerate(job.execs) if "expect" in h
-                and not (h.get("type") == "node" and job.cfg == "dbg" and h.get("tag") == "tlc-lifo")}
+                and not (h.get("type") == "node" and job.cfg == "dbg" and h.get("tag") == "tlc-lifo")
+                and not (h.get("nofence") and job.cfg in ("dbg", "f16"))}
         if not want:
             continue
         got, xn = {}, -1
@@ -205,7 +206,7 @@ def conformance(jobs):
                     xn += 1
                 elif xn in want and ln.startswith('{"e":"alloc"') and '"r":"ok"' in ln:
                     e = json.loads(ln)
-                    got.setdefault(xn, []).append(e["off"] if e["b"] == 0 else -1)
+                    got.setdefault(xn, []).append((e["b"], e["off"]))
         for i, exp in want.items():
             checked += 1
             if got.get(i, []) == exp:
